@@ -104,7 +104,7 @@ func ruleHistoryTriggers(c *core.Ctx) {
 	cat := c.Catalog()
 	type spec struct {
 		fn, table, idCol, srcID, date string
-		update                    bool
+		update                        bool
 	}
 	specs := []spec{
 		{"update_transaction_metadata_history", "transactions_metadata", "transactions_id", "new.id", "new.updated_at", true},
